@@ -92,7 +92,8 @@ void clearNamespace(const xmlNodePtr &node, xmlNsPtr ns)
         }
         attr = attr->next;
     }
-    if (node->children != nullptr) {
+    // The "children" of an entity reference is the declaration of the entity (an xmlEntity), not a node.
+    if ((node->children != nullptr) && (node->type != XML_ENTITY_REF_NODE)) {
         clearNamespace(node->children, ns);
     }
     if (node->next != nullptr) {
@@ -288,8 +289,14 @@ bool XmlNode::equals(const XmlNodePtr &node) const
 
 XmlNodePtr XmlNode::firstChild() const
 {
-    xmlNodePtr child = mPimpl->mXmlNodePtr->children;
     XmlNodePtr childHandle = nullptr;
+    // The "children" of an entity reference is the declaration of the entity (an xmlEntity whose layout is
+    // not that of an xmlNode, and whose siblings are the other declarations of the DTD), not content of the
+    // document: an entity reference has no children as far as we are concerned.
+    if (mPimpl->mXmlNodePtr->type == XML_ENTITY_REF_NODE) {
+        return childHandle;
+    }
+    xmlNodePtr child = mPimpl->mXmlNodePtr->children;
     while (child != nullptr) {
         childHandle = std::make_shared<XmlNode>();
         childHandle->setXmlNode(child);
